@@ -431,13 +431,24 @@ func (fc *FontConfigurationGotext) wrapWordBreak(text []rune, style *TextStyle, 
 		outputs[i] = output
 	}
 
+	if len(outputs) == 0 { // no run to shape (for instance no font at all for this text)
+		return FirstLine{
+			Layout:   layoutGotext{},
+			Length:   0,
+			ResumeAt: -1,
+			Width:    0, Height: 0, Baseline: 0,
+			FirstLineRTL: false,
+		}
+	}
+
 	if style.LetterSpacing != 0 || style.WordSpacing != 0 {
 		ws, ls := floatToFixed(style.WordSpacing), floatToFixed(style.LetterSpacing)
 		shaping.AddSpacing(outputs, text, ws, ls)
 		// add letter spacing at the end, like other browers do
-		lastRun := &outputs[len(outputs)-1]
-		lastRun.Glyphs[len(lastRun.Glyphs)-1].XAdvance += ls
-		lastRun.RecomputeAdvance()
+		if lastRun := &outputs[len(outputs)-1]; len(lastRun.Glyphs) != 0 {
+			lastRun.Glyphs[len(lastRun.Glyphs)-1].XAdvance += ls
+			lastRun.RecomputeAdvance()
+		}
 	}
 
 	// now we can wrap the runs
